@@ -157,7 +157,12 @@ func (p *NetFlowPipe) DecodeFlow(msg interface{}) error {
 	if !ok {
 		templates = p.netFlowTemplater(key)
 		p.templateslock.Lock()
-		p.templates[key] = templates
+		// another worker may have registered the exporter meanwhile: keep its system
+		if existing, found := p.templates[key]; found {
+			templates = existing
+		} else {
+			p.templates[key] = templates
+		}
 		p.templateslock.Unlock()
 	}
 
